@@ -155,6 +155,15 @@ def recursive(F, g):
 BUDGET = 2500      # blocks of one normalised function
 
 
+def owned_by(F, g, fn, _stack):
+    """Is g a private helper that belongs to fn (or to a function fn is being put into): all its callers lead to it?"""
+    import cg
+    import re
+    chain = cg.get(F).owner_chain(g)
+    names = {re.sub(r"(::\{closure#\d+\})+$", "", x.path) for x in [fn] + [F.fns[i] for i in _stack if i in F.fns]}
+    return bool(set(chain) & names)
+
+
 def normalise(F, fn, keep=(), depth=3, _stack=()):
     """See the module text.  Returns a facts.Fn (the same object when there is nothing to do)."""
     if "{closure" in fn.path and not _stack:
@@ -178,7 +187,8 @@ def normalise(F, fn, keep=(), depth=3, _stack=()):
             g = F.fns.get(c["id"])
             if c.get("local") and g is not None and g.crate == fn.crate and g.id != fn.id and g.id not in _stack and depth > 0 \
                     and not g.raw.get("public") and not g.raw.get("impl_trait") and "{closure" not in g.path \
-                    and len(g.raw["blocks"]) <= 400 and len(t["args"]) == g.raw["arg_count"] and (not _stack or not recursive(F, g)):
+                    and len(g.raw["blocks"]) <= 400 and len(t["args"]) == g.raw["arg_count"] and (not _stack or not recursive(F, g)) \
+                    and ("owned-helpers-only" not in keep or owned_by(F, g, fn, _stack)):
                 sites.append((bb, "helper", g))
                 continue
             cs = c.get("closure_self")
